@@ -21,6 +21,7 @@ from simfw.seams import HarnessError     # noqa: E402
 
 STUBS = [
     "disk: a private per-process tmpfs directory reached only through interposed builtins.open / io.open / os.* (paths under /sim translated, I/O traced, read faults injected); file semantics are the kernel's",
+    "wall clock: time.time interposed - starts at a date drawn from the run's seed and advances 1.37 s on every reading (the harness measures with time.monotonic); readings by the code under test are counted in probes['clock.read_by_code_under_test']",
     "set iteration order: SimSet injected as the name `set` in productmd.composeinfo/images/treeinfo (membership etc. are the real C implementation)",
     "network: urllib.request.OpenerDirector.open interposed - URLs on the simulated host sim.example are answered by an in-process peer serving the run's simulated disk (a real http.client.HTTPResponse parsed from a fake socket; refused / timeout / 503 / disconnect / cut-body faults on the n-th request; chunked transfer, dribbling socket); any other URL fails the run, the real network is never reached (used by C20's remote runs only)",
 ]
@@ -57,7 +58,7 @@ def write_evidence(prop, tier, seed, level, total, wall, extra, violations):
         "ops_executed": total["ops"],
         "runs_per_hour": int(total["runs"] / hours),
         "seeds_per_hour": int(total["runs"] / hours),
-        "simulated_time": "n/a (productmd has no timers, clocks or deadlines in the code these properties touch)",
+        "simulated_time": "n/a as a measure: productmd has no timers or deadlines in the code these properties touch; the wall clock is simulated all the same (advances on every reading) so that output depending on it shows",
         "interleavings": "n/a (single-threaded library: no scheduler; the order adversary is SimSet/listdir iteration order)",
         "fault_firings": faults,
         "probes": probes,
